@@ -208,6 +208,11 @@ def bases():
     B["params2"] = [n(J), n("GET /a/{x}/b/{y}", n("Path", body='{\n  "x": 1,\n  "y": 2\n}'), n("200 any")),
                     n("PUT /a/{x}", n("Request", n("Body", body="{}")), n("200 any")),
                     n("URL /c/{z}", n("PATCH", n("Path", body='{\n  "z": "s"\n}'), n("200 any")))]
+    # a parenthesised method with its own Path between the URL's Path and the slots after it; a path whose FIRST segment is a
+    # parameter (its parent path is empty)
+    B["pathmix"] = [n(J), n("URL /a/{id}/{x}/{y}", n("Path", body='{\n  "id": 1\n}'),
+                            n("GET", n("Path", body='{\n  "x": 1\n}'), n("200 any"), paren=True), n("POST", n("200 any")))]
+    B["leadparam"] = [n(J), n("GET /{t}/users", n("200 any")), n("URL /{t}/groups", n("GET", n("200 any"))), n("PUT /{t}", n("200 any"))]
     B["urltags"] = [n(J), n("TAG @g"), n("URL /u", n("Tags @g"), n("GET", n("200 any")), n("DELETE", n("Tags @g"), n("204 empty")))]
     B["all"] = [n(J), n("INFO", n('Title "T"'), n("Version 1")), n("SERVER @s", n('BaseUrl "http://x"')), n("TAG @g"),
                 n("TYPE @t", body="{}"), n("ENUM @e", body="[1]"), n("MACRO @m", n("404 any"), paren=True),
@@ -412,7 +417,10 @@ def variants(tree, injected):
         t2 = replace(tree, p, paste)
         t2 = t2 + [n("MACRO @zzinj", nd, paren=True)]
         yield "paste", t2, paste.uid
-    if nd.kind != "JSIGHT":
+    # (an INCLUDE written inside explicit parentheses is refused at the end of the included file - outside C08's statement,
+    # which speaks of implicitly nested directives - so the file variant is not built below a parenthesised directive)
+    in_paren = any(get(tree, p[:i]).paren for i in range(1, len(p)))
+    if nd.kind != "JSIGHT" and not in_paren:
         inc = Node("INCLUDE", inc=("zzinc.jst", [nd]))
         yield "include", replace(tree, p, inc), None
 
